@@ -1,1 +1,5 @@
 // verification drivers compiled inside the crate (hook H6); one inline module per driver
+#[allow(dead_code, unused_imports, clippy::all)]
+pub mod c20 {
+    include!("drivers/c20.rs");
+}
